@@ -54,7 +54,7 @@ CHECKS.update({
   design="DESIGN.md 3.2, 5 (C11)"),
  "C12": dict(engine="AsmCore",
   technique="TLA+ spec AsmCore.tla (link alphabet): the base is evaluated as a linear form k*LA + c (defined iff k = 0 and no non-linear operator touched a base-dependent value); second .link, self-dependence, forward/backward '. =' predicted; every program replayed into the real assembler",
-  text="Bounded-exhaustive conformance: all programs <= 3/4 statements over 13 .link expressions, 7 '. =' forms, labels and data (plus simulated 2-file programs); predicted base, image and symbol values or rejection.",
+  text="Bounded-exhaustive conformance: all programs <= 3/4 statements over 13 .link expressions, 7 '. =' forms, labels and data (plus simulated 2-file programs; alphabets of their own for bases at the top of the address space, inside conditionally assembled blocks, behind paddings of unknown size, through chains of aliases and written as an invalid octal literal); predicted base, image and symbol values or rejection.",
   note="Trusted: TLC, AsmCore.tla, renderer. Base expressions involving a size that is unknown before the base is known are outside the declared domain (skipped, counted).",
   design="DESIGN.md 3.2, 5 (C12)"),
  "C13": dict(engine="Tape",
@@ -73,7 +73,7 @@ CHECKS.update({
  "C16": dict(engine="AsmCore",
   technique="TLA+ spec AsmCore.tla (struct alphabet): .repeat = unrolling, .include = private inline, .end / .once / insert_file by definition, LinkIsConcatenation checked by TLC; three-way replay: program as written vs. harness-transformed variant (unrolled / insert as .byte / files concatenated) vs. predicted image",
   text="Bounded-exhaustive conformance (all single-file programs <= 3 statements over 13 .repeat forms with '.', impure operators, hoisted index expressions, local-label branches, nesting, plus insert_file/.end/.once/.include; two-file programs exhaustively in thorough) with every accepted program also assembled in its unrolled / inlined / concatenated form against the same prediction.",
-  note="Trusted: TLC, AsmCore.tla, renderer and the three syntactic transformations in harness/checks/C16.py. Repeat counts are literals 0..3 in the exhaustive part.",
+  note="Trusted: TLC, AsmCore.tla, renderer and the three syntactic transformations in harness/checks/C16.py. Repeat counts are literals 0..3 in the exhaustive part, large counts 17/33/40 and counts that are symbols defined further down (StructLateAlphabet: late-compiled blocks referring to labels behind them) in alphabets of their own.",
   design="DESIGN.md 3.2, 5 (C16)"),
  "C19": dict(engine="AsmCore",
   technique="TLA+ spec AsmCore.tla (list alphabet, ListingOf/ListingSorted) and LstPath.tla model-checked by TLC; every accepted program's predicted per-file sorted listing compared line by line with Compiler.generate_listing(), and all LstPath selector scenarios run through the real CLI with --lst (path and content)",
